@@ -41,6 +41,9 @@ CLAIMS = {
 
  "C13": ("Lockset facts over all writers of each shared connection: every writing use holds the owning session's write mutex, response write and flush share one critical section, each WebSocket message is one write of a freshly assembled whole buffer, the buffered connection writes caller data directly only when its buffer is known empty and has no background goroutine. Does not decide kernel partial-write behaviour.",
          "custom SSA lockset analysis + path-state", "DESIGN.md §3 C13"),
+
+ "C14": ("Structural necessary conditions of exact RTSP framing: wire-sized allocations bounded (16-bit origin or dominating comparison with a constant), header line accumulation bounded, body read errors propagated, the dispatcher reads exactly one unit per call after a peek, packets constructed only by the wire reader, reader and writer agree on the interleaved prefix layout. Does not decide round-trip equality or chunking independence.",
+         "SSA dominance/bounds-guard analysis + path-state + constant evaluation", "DESIGN.md §3 C14"),
 }
 NA = {
  "C16": "pure input/output language equivalence of the pattern matcher over all pattern/path pairs: truth lives in string values, no structural clause implies it; deciding it needs exhaustive evaluation (execution), a different technique family",
